@@ -10,12 +10,14 @@ def analyse(ctx: CheckContext, p: Program):
     r = Resolver(p)
     funcs = r.pipeline_cone()
     bk.check_pinch_roles(ctx, p, r, funcs)
+    bk.check_symmetric_collapse(ctx, p, r, funcs)
 
 
 def run(ctx: CheckContext):
     p = Program()
     analyse(ctx, p)
     ctx.floor("ROLE", 12)
+    ctx.floor("ROLE-SYM", 1)
     ctx.assumptions += [
         "decides that hot and cold pinch rows/temperatures are never swapped on the way from detection to the record (role read from identifiers containing hot/cold); "
         "which rows are selected (first-zero/last-zero logic, tolerance) is numeric and NOT decided",
@@ -26,5 +28,7 @@ def run(ctx: CheckContext):
                 'temp_pinch = {"cold_temp": self.cold_pinch, "hot_temp": self.hot_pinch}', 'temp_pinch = {"cold_temp": self.hot_pinch, "hot_temp": self.cold_pinch}', "ROLE")
     run_control(ctx, "C06/rows-swapped-in-call", analyse, p.root, "OpenPinch/analysis/utility_targeting.py",
                 "            T_vals, H_vals, utilities, hot_pinch_row, is_hot_ut=True,", "            T_vals, H_vals, utilities, cold_pinch_row, is_hot_ut=True,", "ROLE")
+    run_control(ctx, "C06/one-sided-collapse", analyse, p.root, "OpenPinch/classes/energy_target.py",
+                "if abs(self.cold_pinch - self.hot_pinch) < tol:", "if self.cold_pinch - self.hot_pinch < tol:", "ROLE-SYM")
     run_control(ctx, "C06/return-order", analyse, p.root, "OpenPinch/classes/problem_table.py",
                 "        return row_h, row_c, valid", "        return row_c, row_h, valid", "ROLE")
